@@ -1,8 +1,9 @@
 import Rfsm.Proofs.ExprFuel
 /-!
-Where the parser model can livelock: only on a text whose last character is `<`, `>`, `=` or `!`
-(`parse_livelock_ends_bad`).  Every lexer function returns a suffix of its input; the operator
-token that does not consume anything is the re-queued last character (`nextToken_stuck`).
+The parser model never reports `livelock` (`parse_no_livelock`).  Every lexer function returns a
+suffix of its input, and an operator token always consumes at least its first character
+(`readOperator_shrinks`, `nextToken_stuck`) — since the repair of `read_operator`, which used to
+un-read at the end of the text and re-deliver a trailing `<`, `>`, `=` or `!` for ever.
 -/
 namespace Rfsm.Expr
 
@@ -61,14 +62,28 @@ theorem readOperator_suffix (first : Ch) (rest : Str) :
     repeat' split
     all_goals first
       | exact List.suffix_cons _ _
-      | (rw [opSingle_snd]; exact List.suffix_refl _)
+      | (rw [opSingle_snd]; exact List.nil_suffix)
   | cons s r =>
     simp only [readOperator]
     repeat' split
     all_goals first
       | exact List.suffix_cons _ _
       | (rw [opSingle_snd]; exact List.suffix_cons _ _)
+      | (rw [opSingle_snd]; exact List.nil_suffix)
       | (rw [opDouble_snd]; exact suffix_cons_of_suffix _ (List.suffix_cons _ _))
+
+/-- `read_operator` always consumes `first` -/
+theorem readOperator_shrinks (first : Ch) (rest : Str) :
+    (readOperator first rest).2.length ≤ rest.length := by
+  cases rest with
+  | nil =>
+    simp only [readOperator]
+    repeat' split
+    all_goals simp [opSingle_snd]
+  | cons s r =>
+    simp only [readOperator]
+    repeat' split
+    all_goals simp [opSingle_snd, opDouble_snd]
 
 theorem stopToken_suffix (stops : List Ch) (c : Ch) (rest : Str) :
     (stopToken stops c rest).2 <:+ c :: rest := by
@@ -106,21 +121,6 @@ theorem nextToken_suffix (stops : List Ch) (inp : Str) : (nextToken stops inp).2
     · exact List.IsSuffix.trans (readNumber_suffix _ _ _) h
     · exact List.IsSuffix.trans (readWord_suffix _ _ _) h
 
-/-- the four characters whose operator token is re-queued at the end of the text -/
-def BadEnd (c : Ch) : Prop := c = 60 ∨ c = 62 ∨ c = 61 ∨ c = 33
-
-theorem opSingle_operator (first : Ch) (back : Str)
-    (h : (opSingle first back).1.isOperator = true) : BadEnd first := by
-  unfold opSingle at h
-  unfold BadEnd
-  repeat' split at h
-  all_goals first
-    | (rename_i hc; simp at hc; simp [hc]; done)
-    | (rename_i _ hc; simp at hc; simp [hc]; done)
-    | (rename_i _ _ hc; simp at hc; simp [hc]; done)
-    | (rename_i _ _ _ hc; simp at hc; simp [hc]; done)
-    | (simp [Token.isOperator] at h)
-
 theorem classifyWord_not_operator (buf : Str) : (classifyWord buf).isOperator = false := by
   unfold classifyWord
   repeat' split
@@ -150,20 +150,10 @@ theorem readWord_acc_not_operator (stops : List Ch) (s acc : Str) (h : acc ≠ [
       exact classifyWord_not_operator _
     · exact ih (c :: acc) (by simp)
 
-theorem eatSpace_singleton {inp : Str} {c : Ch} (h : eatSpace inp = [c]) (hl : inp.length ≤ 1) :
-    inp = [c] := by
-  match inp, h, hl with
-  | [x], h, _ =>
-    simp only [eatSpace] at h
-    split at h
-    · cases h
-    · exact h
-  | _ :: _ :: _, _, hl => simp at hl
-
-/-- an operator token that consumes nothing is the re-queued last character of the text -/
+/-- there is no operator token that consumes nothing -/
 theorem nextToken_stuck (stops : List Ch) (inp : Str)
     (hop : (nextToken stops inp).1.isOperator = true)
-    (hlen : inp.length ≤ (nextToken stops inp).2.length) : ∃ c, BadEnd c ∧ inp = [c] := by
+    (hlen : inp.length ≤ (nextToken stops inp).2.length) : False := by
   have hs := eatSpace_length inp
   unfold nextToken at hop hlen
   split at hop
@@ -197,56 +187,27 @@ theorem nextToken_stuck (stops : List Ch) (inp : Str)
               · -- read_operator
                 rename_i h1 h2 h3 h4
                 simp only [h1, h2, h3, h4, Bool.false_eq_true, if_false, if_true] at hlen
-                cases rest with
-                | nil =>
-                  have hl1 : inp.length ≤ 1 := by
-                    have := (readOperator_ok c []).1
-                    simp only [List.length_nil] at this
-                    omega
-                  have hinp := eatSpace_singleton heq hl1
-                  refine ⟨c, ?_, hinp⟩
-                  simp only [readOperator] at hop hlen
-                  repeat' split at hop
-                  all_goals first
-                    | exact opSingle_operator _ _ hop
-                    | (exfalso
-                       subst hinp
-                       simp_all)
-                | cons s r =>
-                  exfalso
-                  rcases (readOperator_ok c (s :: r)).2 with h | ⟨h, _⟩
-                  · simp only [List.length_cons] at *; omega
-                  · cases h
+                have := readOperator_shrinks c rest
+                omega
               · repeat' split at hop
                 all_goals simp [Token.isOperator] at hop
       · rename_i hstop
         rw [readWord_acc_not_operator _ _ _ (by simp)] at hop
         cases hop
 
-/-- the text ends in `<`, `>`, `=` or `!` -/
-def EndsBad (s : Str) : Prop := ∃ c, BadEnd c ∧ s.getLast? = some c
-
-theorem EndsBad_of_suffix {rest inp : Str} (h : rest <:+ inp) (hb : EndsBad rest) : EndsBad inp := by
-  obtain ⟨c, hc, hl⟩ := hb
-  obtain ⟨pre, rfl⟩ := h
-  refine ⟨c, hc, ?_⟩
-  cases rest with
-  | nil => simp at hl
-  | cons x xs => rw [List.getLast?_append, hl]; rfl
-
 def SubLL (inp : Str) (r : PRes (Ch × Option Expr × Str)) : Prop :=
-  (r = .livelock → EndsBad inp) ∧ ∀ stop e rest, r = .ok (stop, e, rest) → rest <:+ inp
+  r ≠ .livelock ∧ ∀ stop e rest, r = .ok (stop, e, rest) → rest <:+ inp
 
 def ListLL {α : Type} (inp : Str) (r : PRes (α × Str)) : Prop :=
-  (r = .livelock → EndsBad inp) ∧ ∀ v rest, r = .ok (v, rest) → rest <:+ inp
+  r ≠ .livelock ∧ ∀ v rest, r = .ok (v, rest) → rest <:+ inp
 
 theorem SubLL_mono {inp' inp : Str} {r : PRes (Ch × Option Expr × Str)} (hs : inp' <:+ inp)
     (h : SubLL inp' r) : SubLL inp r :=
-  ⟨fun hl => EndsBad_of_suffix hs (h.1 hl), fun a b c hr => (h.2 a b c hr).trans hs⟩
+  ⟨h.1, fun a b c hr => (h.2 a b c hr).trans hs⟩
 
 theorem ListLL_mono {α : Type} {inp' inp : Str} {r : PRes (α × Str)} (hs : inp' <:+ inp)
     (h : ListLL inp' r) : ListLL inp r :=
-  ⟨fun hl => EndsBad_of_suffix hs (h.1 hl), fun a b hr => (h.2 a b hr).trans hs⟩
+  ⟨h.1, fun a b hr => (h.2 a b hr).trans hs⟩
 
 theorem SubLL_err (inp : Str) (e : PErr) : SubLL inp (.err e) :=
   ⟨(by intro h; cases h), (by intro _ _ _ h; cases h)⟩
@@ -281,8 +242,7 @@ theorem SubLL_finishSub (inp : Str) (stop : Ch) (rest : Str) (exprs : List Expr)
       exact h1
     · exact SubLL_err _ _
 
-/-- a livelock of any parser function means the remaining input ends in `< > = !`; what the
-functions leave is a suffix of their input -/
+/-- no parser function reports a livelock; what the functions leave is a suffix of their input -/
 theorem parser_livelock (fuel : Nat) :
     (∀ stops inp exprs stack, SubLL inp (parseSub fuel stops inp exprs stack)) ∧
     (∀ stop inp acc, ListLL inp (parseArgs fuel stop inp acc)) ∧
@@ -317,8 +277,7 @@ theorem parser_livelock (fuel : Nat) :
           simp only
           split
           · rename_i hlen
-            obtain ⟨c, hc, hinp⟩ := hstuck rfl hlen
-            refine ⟨fun _ => ⟨c, hc, by rw [hinp]; rfl⟩, by intro _ _ _ h; cases h⟩
+            exact (hstuck rfl hlen).elim
           · exact SubLL_mono hsuf (ihS _ _ _ _)
         | exprSep =>
           simp only
@@ -355,11 +314,11 @@ theorem parser_livelock (fuel : Nat) :
                have h1 := (ihM _ _ _).2 _ _ heq
                exact SubLL_mono (h1.trans hsuf) (ihS _ _ _ _))
             | (rename_i heq
-               exact ⟨fun _ => EndsBad_of_suffix hsuf ((ihS _ _ _ _).1 heq), by intro _ _ _ h; cases h⟩)
+               exact ⟨fun _ => (ihS _ _ _ _).1 heq, by intro _ _ _ h; cases h⟩)
             | (rename_i heq
-               exact ⟨fun _ => EndsBad_of_suffix hsuf ((ihA _ _ _).1 heq), by intro _ _ _ h; cases h⟩)
+               exact ⟨fun _ => (ihA _ _ _).1 heq, by intro _ _ _ h; cases h⟩)
             | (rename_i heq
-               exact ⟨fun _ => EndsBad_of_suffix hsuf ((ihM _ _ _).1 heq), by intro _ _ _ h; cases h⟩)
+               exact ⟨fun _ => (ihM _ _ _).1 heq, by intro _ _ _ h; cases h⟩)
     · intro stop inp acc
       rw [parseArgs]
       split
@@ -402,7 +361,7 @@ theorem parser_livelock (fuel : Nat) :
         · exact ListLL_err _ _
         · exact ListLL_panic _
         · rename_i heq2
-          exact ⟨fun _ => EndsBad_of_suffix h1 ((ihS _ _ _ _).1 heq2), by intro _ _ h; cases h⟩
+          exact ⟨fun _ => (ihS _ _ _ _).1 heq2, by intro _ _ h; cases h⟩
         · exact ListLL_fuel _
       · exact ListLL_err _ _
       · exact ListLL_panic _
@@ -410,8 +369,9 @@ theorem parser_livelock (fuel : Nat) :
         exact ⟨fun _ => (ihS _ _ _ _).1 heq, by intro _ _ h; cases h⟩
       · exact ListLL_fuel _
 
-/-- `parse` can only livelock on a text whose last character is `<`, `>`, `=` or `!` -/
-theorem parse_livelock_ends_bad (text : Str) (h : parse text = .livelock) : EndsBad text := by
+/-- `parse` never livelocks -/
+theorem parse_no_livelock (text : Str) : parse text ≠ .livelock := by
+  intro h
   unfold parse at h
   have := (parser_livelock (parseFuel text)).1 [0] text [] []
   split at h
